@@ -11,11 +11,11 @@ open SpatialId
 
 /-- numeric literals of `shape.GetExtendedSpatialIdsOnLine` -/
 theorem facts_shape_GetExtendedSpatialIdsOnLine :
-    Gen.funcFacts.lookup "shape.GetExtendedSpatialIdsOnLine" = some ["i:1", "i:31", "i:34"] := by decide
+    Gen.funcFacts.lookup "shape.GetExtendedSpatialIdsOnLine" = some ["f:4467902934002620053", "f:4482622658704346170", "f:4491629857959087162", "f:4557750909289998844", "f:4569063951553953530", "i:1", "i:31", "i:34"] := by decide
 
 /-- numeric literals of `shape.middleSpatialIds` -/
 theorem facts_shape_middleSpatialIds :
-    Gen.funcFacts.lookup "shape.middleSpatialIds" = some ["f:4602678819172646912", "i:0", "i:1", "i:2"] := by decide
+    Gen.funcFacts.lookup "shape.middleSpatialIds" = some ["f:4602678819172646912"] := by decide
 
 /-- the six thresholds of shape/line.go are the binary64 values the model uses -/
 theorem line_thresholds :
